@@ -15,7 +15,7 @@ use vph::refdec;
 pub const RULE: &str = "for each writer front-end × declared/undeclared total × seek policy {off, every frame, seconds} × padding {default 4096, none, 20} × channels/depth {1×16, 2×8, 2×24} × sink {whole-buffer writes, at most 1 byte per write call, at most 7} (+ STREAMINFO-referenced parameters: 10-bit, 17-bit at rate 0, 100001 Hz): 3.5 blocks of 16 PCM frames are written without finalize, plus declared totals of 2^32, 2^32+100, 2^32+23, 2^33, 2^34+1000 and 2^36−1 PCM frames (56 supplied), plus histories where the caller supplies more or fewer PCM frames than it declared ((supplied, declared) ∈ {(56,40),(48,40),(56,33),(40,17),(33,32),(56,100)}) and stops at the first error; for EVERY byte prefix of the emitted stream (a superset of every write-call boundary) each of 9 reader front-ends (byte LE/BE read + fill_buf, sample fill_buf / read(7) / read(4099) / iterator, channel whole and half-buffer consumption) must deliver exactly the PCM of the frames that lie completely inside the prefix (frame extents from the independent decoder run on a copy whose provisional total is cleared, i.e. without trusting STREAMINFO), in order, and then report end of data or an error; a prefix ending inside the metadata yields no samples";
 pub const ASSUMPTIONS: &[&str] = &["the pre-finalize write log is verified to be append-only at run time (otherwise prefixes would not be the crash images and the check reports a machinery note)", "torn writes inside one write call are covered because every byte prefix is explored; reordering of writes by the OS is out of scope (no syncs exist to order against)"];
 pub fn bounds(_quick: bool) -> Value {
-    json!({"prefixes": "every byte prefix", "blocks": "3 complete frames emitted + half a block buffered"})
+    json!({"prefixes": "every byte prefix", "blocks": "3 complete frames emitted + half a block buffered", "formats": if _quick { "3 (1×16, 2×8, 2×24)" } else { "18 (channels 1..8, depths 8..32)" }, "sinks": if _quick { "whole buffers, 1, 7 bytes per call" } else { "whole buffers, 1, 2, 3, 5, 7, 13, 64 bytes per call" }})
 }
 
 fn emit(w: WriterKind, opt: &Opt, sig: &Sig, pcm: &[i32], declared_frames: Option<usize>, max_write: usize) -> Result<MemDevice, String> {
@@ -133,14 +133,17 @@ fn check_prefix(img: &Image, len: usize, r: ReaderKind) -> Result<&'static str, 
 const SINKS: [usize; 3] = [0, 1, 7];
 const READERS14: [ReaderKind; 9] = [ReaderKind::ByteLE, ReaderKind::SampleFill, ReaderKind::Channel, ReaderKind::SampleRead, ReaderKind::SampleReadBig, ReaderKind::SampleIter, ReaderKind::ByteBE, ReaderKind::ByteFillLE, ReaderKind::ChannelPart];
 
-fn configs() -> Vec<(WriterKind, Opt, Sig, usize, Option<usize>, usize)> {
+fn configs(quick: bool) -> Vec<(WriterKind, Opt, Sig, usize, Option<usize>, usize)> {
     let mut v = Vec::new();
+    // thorough: every channel count and 6 depths instead of 3 formats, 8 sink sizes instead of 3
+    let sigs: Vec<Sig> = if quick { vec![Sig { rate: 44100, bps: 16, ch: 1 }, Sig { rate: 8000, bps: 8, ch: 2 }, Sig { rate: 96000, bps: 24, ch: 2 }] } else { (1..=8u8).flat_map(|ch| [8u32, 12, 16, 20, 24, 32].into_iter().filter(move |b| ch <= 2 || *b == 8 * (1 + (ch as u32) % 4)).map(move |bps| Sig { rate: [44100, 8000, 96000][ch as usize % 3], bps, ch })).collect() };
+    let sinks: Vec<usize> = if quick { SINKS.to_vec() } else { vec![0, 1, 2, 3, 5, 7, 13, 64] };
     for w in [WriterKind::Sample, WriterKind::ByteLE, WriterKind::Channel] {
         for declared in [true, false] {
             for seek in [Seek::Off, Seek::Frames(1), Seek::Default] {
                 for pad in [Pad::Default, Pad::None, Pad::Size(20)] {
-                    for sig in [Sig { rate: 44100, bps: 16, ch: 1 }, Sig { rate: 8000, bps: 8, ch: 2 }, Sig { rate: 96000, bps: 24, ch: 2 }] {
-                        for mw in SINKS {
+                    for sig in sigs.iter() {
+                        for &mw in sinks.iter() {
                             v.push((w, Opt { declared, seek, pad, ..Opt::base16() }, sig.clone(), 56, declared.then_some(56), mw));
                         }
                     }
@@ -173,7 +176,7 @@ fn configs() -> Vec<(WriterKind, Opt, Sig, usize, Option<usize>, usize)> {
 }
 
 pub fn run(ctx: &Ctx, acc: &mut Acc) {
-    for (w, opt, sig, supplied, declared_frames, max_write) in configs() {
+    for (w, opt, sig, supplied, declared_frames, max_write) in configs(ctx.quick) {
         let img = match image(w, &opt, &sig, supplied, declared_frames, max_write) {
             Ok(i) => i,
             Err(e) => {
